@@ -3,6 +3,37 @@ use crate::util::*;
 use datamatrix::{errorcode, verif_hooks as vh};
 use std::io::Write;
 
+/// independent GF(256) arithmetic (polynomial 0x12D), carry-less
+fn gf_mul(mut a: u8, mut b: u8) -> u8 {
+    let mut r = 0u8;
+    while a != 0 {
+        if a & 1 == 1 {
+            r ^= b;
+        }
+        let hi = b & 0x80 != 0;
+        b <<= 1;
+        if hi {
+            b ^= 0x2D;
+        }
+        a >>= 1;
+    }
+    r
+}
+
+fn gf_inv(a: u8) -> u8 {
+    let mut r = 1u8;
+    let mut b = a;
+    let mut e = 254u32;
+    while e > 0 {
+        if e & 1 == 1 {
+            r = gf_mul(r, b);
+        }
+        b = gf_mul(b, b);
+        e >>= 1;
+    }
+    r
+}
+
 pub fn gen(out: &mut dyn Write, seed: u64, thorough: bool) {
     let sizes = all_sizes();
     let mut rng = Rng::new(seed ^ 0xC06);
@@ -50,6 +81,83 @@ pub fn gen(out: &mut dyn Write, seed: u64, thorough: bool) {
         emit(out, si, vec![255; n]);
         emit(out, si, (0..n).map(|i| (i * 37 % 256) as u8).collect());
     }
+    // crafted: the division's remainder gets a zero leading coefficient right before a zero data
+    // codeword (for a single non-zero codeword this cannot happen: the leading coefficient of
+    // x^j mod g is a Gaussian binomial in 2, non-zero for every block length below 255), with an own
+    // simulation of the division; sparse vectors; all vectors [a, b, 0] of 10x10 (thorough) / a sample
+    let mut n_crafted = 0usize;
+    for (si, s) in sizes.iter().enumerate() {
+        let inf = vh::size_info(*s);
+        let (n, blocks, k) = (inf.num_data_codewords, inf.num_ecc_blocks, inf.num_ecc_per_block);
+        // generator polynomial prod_{i=1..k} (X + 2^i), highest coefficient first
+        let mut g = vec![1u8];
+        let mut root = 1u8;
+        for _ in 0..k {
+            root = gf_mul(root, 2);
+            let mut next = vec![0u8; g.len() + 1];
+            for (d, c) in g.iter().enumerate() {
+                next[d] ^= *c;
+                next[d + 1] ^= gf_mul(*c, root);
+            }
+            g = next;
+        }
+        let step = |ecc: &mut Vec<u8>, a: u8| {
+            let kk = ecc[0] ^ a;
+            for j in 0..k {
+                let nxt = if j + 1 < k { ecc[j + 1] } else { 0 };
+                ecc[j] = nxt ^ gf_mul(kk, g[j + 1]);
+            }
+        };
+        for rep in 0..(if thorough { 12 } else { 3 }) {
+            let b = rng.below(blocks);
+            let len_b = (n - b + blocks - 1) / blocks;
+            if len_b < 3 {
+                continue;
+            }
+            let start = rng.below(len_b - 2);
+            let mut ecc = vec![0u8; k];
+            let mut d = vec![0u8; n];
+            // some random codewords of the block first
+            let lead = if rep % 2 == 0 { 1 } else { 1 + rng.below(len_b - 2 - start).min(6) };
+            let mut q = start;
+            for _ in 0..lead {
+                if q + 2 >= len_b { break; }
+                let a = 1 + rng.below(255) as u8;
+                d[b + q * blocks] = a;
+                step(&mut ecc, a);
+                q += 1;
+            }
+            if q + 1 >= len_b || g[1] == 0 {
+                continue;
+            }
+            // the codeword that makes the next leading coefficient vanish, then zeros
+            let a = ecc[0] ^ gf_mul(if k > 1 { ecc[1] } else { 0 }, gf_inv(g[1]));
+            d[b + q * blocks] = a;
+            emit(out, si, d);
+            n_crafted += 1;
+        }
+        // sparse vectors: two to four non-zero codewords
+        for _ in 0..(if thorough { 30 } else { 4 }) {
+            let mut d = vec![0u8; n];
+            for _ in 0..(2 + rng.below(3)) {
+                d[rng.below(n)] = 1 + rng.below(255) as u8;
+            }
+            emit(out, si, d);
+            n_crafted += 1;
+        }
+    }
+    {
+        let pairs: Vec<(u8, u8)> = if thorough {
+            (0..=255u8).flat_map(|a| (0..=255u8).map(move |b| (a, b))).collect()
+        } else {
+            (0..3000).map(|_| (rng.byte(), rng.byte())).collect()
+        };
+        for (a, b) in pairs {
+            emit(out, 0, vec![a, b, 0]);
+            n_crafted += 1;
+        }
+    }
+    writeln!(out, "# crafted_zero_leading_coefficient_and_sparse {}", n_crafted).unwrap();
     writeln!(out, "# basis_vectors {}", n_basis).unwrap();
     writeln!(out, "# random_vectors {}", n_rand).unwrap();
     // wrong length must panic (documented), model: error
